@@ -45,6 +45,7 @@
 (*   "kinds"   one packet of every kind, with and without the control bit, *)
 (*             delivered to a stream in a given state (C18, last clause)   *)
 (*   "meta"    call metadata maps over string classes (C18)                *)
+(*   "ops"     the packet each stream operation sends (C18)                *)
 (* Every state prints one record with the demanded result.                 *)
 (***************************************************************************)
 EXTENDS Integers, Sequences, FiniteSets, TLC, Json
@@ -316,6 +317,16 @@ HandleOutcome(pre, kind, control) ==
       [] control   -> Untouched(pre)          \* unknown kind with the control bit: ignored
       [] OTHER     -> [ret |-> "internal", term |-> TRUE, recv |-> "term-err", send |-> "err"]
 
+\* The wire vocabulary shared with released peers (packet.go, README): what each operation of
+\* the stream layer puts on the wire as its (last) packet.
+OpWire == [invoke     |-> [kind |-> 1, control |-> FALSE, body |-> "rpc name"],
+           message    |-> [kind |-> 2, control |-> FALSE, body |-> "message"],
+           error      |-> [kind |-> 3, control |-> FALSE, body |-> "code+text"],
+           softcancel |-> [kind |-> KindCancel, control |-> TRUE, body |-> "empty"],
+           close      |-> [kind |-> 5, control |-> FALSE, body |-> "empty"],
+           closesend  |-> [kind |-> 6, control |-> FALSE, body |-> "empty"],
+           metadata   |-> [kind |-> 7, control |-> FALSE, body |-> "metadata"]]
+
 (* ---------------------------------------------------------------------- *)
 (* behaviours                                                              *)
 (* ---------------------------------------------------------------------- *)
@@ -337,6 +348,10 @@ Init ==
        /\ cfg = [max |-> 0, depth |-> 0, taild |-> 0]
        /\ \E k \in KindSpace, c \in BOOLEAN, pre \in {"open", "terminated", "foreign"} :
             es = [kind |-> k, control |-> c, pre |-> pre, outcome |-> HandleOutcome(pre, k, c)]
+       /\ frames = <<>> /\ rs = InitNew /\ tail = NoTail /\ fin = "eof" /\ stop = TRUE
+    \/ /\ Mode = "ops"
+       /\ cfg = [max |-> 0, depth |-> 0, taild |-> 0]
+       /\ \E o \in DOMAIN OpWire : es = [op |-> o, wire |-> OpWire[o]]
        /\ frames = <<>> /\ rs = InitNew /\ tail = NoTail /\ fin = "eof" /\ stop = TRUE
     \/ \* call metadata: maps with at most two entries over the string classes, plus generated entries.
        \* v0.0.17 encodes metadata as a protobuf map<string,string>, so it refuses strings that are
@@ -436,5 +451,6 @@ EmitRec ==
                                   old |-> ResultOld(ReassembleOld(frames))]))
       [] Mode = "kinds" -> PrintT("@@" \o ToJson([mode |-> Mode, hk |-> es]))
       [] Mode = "meta"  -> PrintT("@@" \o ToJson([mode |-> Mode, meta |-> es]))
+      [] Mode = "ops"   -> PrintT("@@" \o ToJson([mode |-> Mode, opw |-> es]))
 
 =============================================================================
